@@ -9,7 +9,7 @@ with the *definition* evaluated by mpmath at 50 digits (class B).  The property'
 quantiles invert, likelihood = mass function, KDE non-negative and normalised) are evaluated on the
 implementation's output (kind "prop").
 """
-import math, random, sys
+import math, os, random, sys
 from fractions import Fraction
 from common import *
 
@@ -25,23 +25,34 @@ except ImportError:
 RULE = ("requests are drawn from VERIF_SEED: parameters on both sides of every branch, support boundaries, far tails; "
         "Poisson means 1e-3..1e3, counts 0..500, binomial trials 0..170 (and up to 400), dof 0..400, "
         "chi-bar weight vectors, sorted argument grids per family; a case is non-trivial when the model answers ok/err and is "
-        "counted once per distinct (op, outcome/branch, magnitude class of the parameters) key. "
-        "Inv_CDF_Poisson with counts>=100 and cdf<1e-6 (Inv_GammaQ, a>100, p->1) is the corner reported under C06")
+        "counted once per distinct (op, outcome/branch, magnitude class of the parameters) key")
 CORR_ONLY = ["CDF_Poisson = sum of PMF_Poisson (goes through the numerical GammaQ): vs mpmath at 1e-12 (counts<100) / 1e-3",
              "CDF = integral of the density for Gauss / chi-square / Maxwell-Boltzmann / exponential: mpmath.quad of the definition",
-             "Inv_CDF_Poisson, Quantile_Gauss accuracy (1e-7 / 1e-3 through Inv_GammaQ; 1e-4 through Inv_Erf)",
+             "Inv_CDF_Poisson, Quantile_Gauss accuracy (1e-7 through Inv_GammaQ for every count; 1e-4 through Inv_Erf)",
              "far tails; KDE tabulated values vs the definition; KDE normalisation through Interpolation::Integrate at 2.5e-5 (the library "
              "renormalises with its adaptive Simpson rule at 1e-8 absolute on a C1 interpolant; worst observed 1.4e-6); KDE with a bandwidth "
              "below the spacing of its 150-point table is excluded (not representable by the table)"]
 ASSUMPTIONS = ["exp/log/sqrt/erf/pow of libm approximate the real functions (parameters of the model)",
                "rounding slack (documented, minimal): PMF/CDF_Binomial get the denormal spacing 2^-1074 times the other factors as absolute "
-               "slack when a factor p^x or (1-p)^(t-x) underflows to a denormal; CDF_Maxwell_Boltzmann may be negative by at most 8 ulp of its erf term "
-               "(two nearly equal terms are subtracted for x/a < 1e-5)",
+               "slack when a factor p^x or (1-p)^(t-x) underflows to a denormal",
                "Gamma, GammaQ, GammaP, Inv_GammaQ, Inv_Erf are the functions of property C06/C17 (parameters of the model)"]
 TRUSTED = ["mpmath 1.3 at 50 digits (exp, log, erf, erfinv, gamma, loggamma, gammainc, quad) as a validated-not-verified "
            "reference of the definitions; self-test in finalize"]
 
 EPSF = 2.0 ** -53
+# OPEN DEFECTS of /repo with a repair proposed but not yet applied: while True the clause keeps its former slack / the generator
+# its former filter, and the entry is listed in the evidence (ASSUMPTIONS); set to False once the patch is in /repo.
+_FIXED = set(os.environ.get("LP_ASSUME_FIXED", "").split(","))   # rehearsal of a proposed patch: LP_ASSUME_FIXED=C07-1,C07-2,...
+PENDING_MB_SMALL = "C07-1" not in _FIXED     # defect 7: CDF_Maxwell_Boltzmann negative / no digits for x/a < 1e-7 (fixprop-C07-1)
+PENDING_KDE_NARROW = "C07-2" not in _FIXED   # defect 4: Perform_KDE not normalised for bandwidth < ~2.7 table spacings (fixprop-C07-2)
+PENDING_LIK_000 = "C07-3" not in _FIXED      # defect 15: Likelihood_Poisson(0,0,0) = NaN while PMF_Poisson(0,0) = 1 (fixprop-C07-3)
+ASSUMPTIONS += [t for f, t in (
+    (PENDING_MB_SMALL, "OPEN DEFECT 7 (repair proposed, fixprop-C07-1): CDF_Maxwell_Boltzmann may be negative by at most 8 ulp of its erf term and is "
+                       "compared at the rounding noise of the cancelling closed form for x/a < 0.1; after the repair: >= 0 exactly, 16 eps relative"),
+    (PENDING_KDE_NARROW, "OPEN DEFECT 4 (repair proposed, fixprop-C07-2): KDE with a bandwidth below the spacing of its 150-point table is excluded and the "
+                         "normalisation is judged at 2.5e-5; after the repair: every bandwidth whose table is not identically zero, 1e-12"),
+    (PENDING_LIK_000, "OPEN DEFECT 15 (repair proposed, fixprop-C07-3): (Log_)Likelihood_Poisson(_Binned) with s+b = 0 and no observed events (nan) is not "
+                      "generated; after the repair it is, against PMF_Poisson(0,0) = 1")) if f]
 K_MB = 64          # ulps of the two cancelling terms of CDF_Maxwell_Boltzmann (calibrated: worst observed on the unchanged tree x16)
 K_ERF = 4          # ulps of a double erf value near +-1 that the root of erf(x) - y cannot resolve
 K_EXP = 64         # relative K*eps*(size of the exponent) for exp-type formulas
@@ -120,7 +131,15 @@ def d_mb_pdf(x, a):
 def d_mb_cdf(x, a):
     if x < 0:
         return mpf(0)
-    return mpmath.erf(x / (mpmath.sqrt(2) * a)) - mpmath.sqrt(2 / mpmath.pi) * x / a * mpmath.exp(-x * x / (2 * a * a))
+    t = x / a
+    if t < mpf("0.5"):
+        # the closed form cancels (50 digits are not enough below t ~ 1e-16): integrate the series of the density term by term
+        tot, k, term = mpf(0), 0, t ** 3 / 3
+        while k < 200 and (k == 0 or abs(term) > abs(tot) * mpf(10) ** -55):
+            tot += term; k += 1
+            term = (-1) ** k * t ** (2 * k + 3) / (mpf(2) ** k * mpmath.factorial(k) * (2 * k + 3))
+        return mpmath.sqrt(2 / mpmath.pi) * tot
+    return mpmath.erf(t / mpmath.sqrt(2)) - mpmath.sqrt(2 / mpmath.pi) * t * mpmath.exp(-t * t / 2)
 
 
 def d_loglik(s, n, b):
@@ -244,8 +263,6 @@ def generate(tier, seed, ctx):
         n = rng.choice([0, 1, 2, rng.randint(0, 99), rng.randint(0, 99), rng.randint(100, 500)])
         c = rng.random()
         cdf = rng.uniform(0, 1) if c < 0.6 else (10.0 ** rng.uniform(-9, -1) if c < 0.8 else 1 - 10.0 ** rng.uniform(-9, -1))
-        if n >= 99:
-            cdf = max(cdf, 1e-6)
         R.append("c07.pois_inv %d %s" % (n, hx(cdf)))
     for cdf in (-0.1, 1.1):
         R.append("c07.pois_inv 3 %s" % hx(cdf)); R.append("c07.pois_inv 0 %s" % hx(cdf))
@@ -330,6 +347,14 @@ def generate(tier, seed, ctx):
                 r2 = "c07.%s %s %s" % (op, hx(c * (1 + 5e-9) * sc), hx(sc))
                 R.append(r1); R.append(r2)
                 ctx["pairs"].append((op, c, sc, r1, r2))
+    if not PENDING_MB_SMALL:      # x/a down to 1e-160: the series branch (non-negative, monotone, relative accuracy)
+        for _ in range(150 * n1):
+            sc = 10.0 ** rng.uniform(-3, 3); t = 10.0 ** rng.uniform(-160, -1)
+            R.append("c07.mb_cdf %s %s" % (hx(sc * t), hx(sc)))
+        for sc in (1.0, 2.5):
+            for c in [10.0 ** -k for k in (6, 7, 8, 9, 12, 20, 50, 90)] + [0.1]:
+                r1 = "c07.mb_cdf %s %s" % (hx(c * (1 - 5e-9) * sc), hx(sc)); r2 = "c07.mb_cdf %s %s" % (hx(c * (1 + 5e-9) * sc), hx(sc))
+                R.append(r1); R.append(r2); ctx["pairs"].append(("mb_cdf", c, sc, r1, r2))
     for m in (0.0, -1.0, -1e-300):
         for op in ("exp_pdf", "exp_cdf", "mb_pdf", "mb_cdf"):
             R.append("c07.%s %s %s" % (op, hx(1.0), hx(m)))
@@ -361,6 +386,16 @@ def generate(tier, seed, ctx):
                 b = b + [1.0] if b else [1.0] * (m + 1)
         for op in ("lik_b", "loglik_b"):
             R.append("c07.%s %s %s %s" % (op, lst(s), ilst(n), lst(b)))
+    if not PENDING_LIK_000:        # no expected and no observed events: the mass function is 1
+        for op in ("lik", "loglik"):
+            R.append("c07.%s %s 0 %s" % (op, hx(0.0), hx(0.0)))
+        for j in range(10 * n1):
+            m = rng.randint(1, 5)
+            sv = [rng.choice([0.0, rng.uniform(0.01, 10)]) for _ in range(m)]; bv = [rng.choice([0.0, rng.uniform(0.01, 5)]) for _ in range(m)]
+            nv = [0 if sv[i] + bv[i] == 0 else rng.randint(0, 4) for i in range(m)]
+            i0 = rng.randrange(m); sv[i0] = 0.0; bv[i0] = 0.0; nv[i0] = 0
+            for op in ("lik_b", "loglik_b"):
+                R.append("c07.%s %s %s %s" % (op, lst(sv), ilst(nv), lst(bv)))
     # bins with exact zeros: every combination of zero / non-zero (prediction, observation, background) the code accepts
     # (signal + background > 0), explicit background vectors: the binned likelihood is the product of PMF_Poisson(n_i; s_i+b_i)
     combos = [(zs, zn, zb) for zs in (0, 1) for zn in (0, 1) for zb in (0, 1) if zs or zb]
@@ -382,7 +417,7 @@ def generate(tier, seed, ctx):
         vals = sorted(set(xmin + width * rng.random() ** rng.choice([1, 2]) for _ in range(N)))
         rng.shuffle(vals)
         w = [1.0] * len(vals) if rng.random() < 0.5 else [rng.uniform(0.1, 3) for _ in vals]
-        bw = 0.0 if (rng.random() < 0.5 and len(vals) > 1) else width * 10.0 ** rng.uniform(-1.5, -0.3)
+        bw = 0.0 if (rng.random() < 0.5 and len(vals) > 1) else width * 10.0 ** rng.uniform(-1.5 if PENDING_KDE_NARROW else -3.5, -0.3)
         R.append("c07.kde %d %s %s %s %s" % (len(vals), " ".join(hx(v) + " " + hx(ww) for v, ww in zip(vals, w)), hx(xmin), hx(xmax), hx(bw)))
     # ---- two-dimensional normal density (coverage extension) ----
     rng2 = random.Random(seed * 15485863 + 707)
@@ -556,7 +591,7 @@ def _check(op, a, ti, mt, ctx):
         tol = (Fraction(400 + 2 * x) * EPS if t <= 170 else Fraction(1e-10)) * ex + und + Fraction(FLOOR)
         if math.isnan(v) or not ratio(ctx, "Binomial %s vs exact (trials%s170)" % (nm[6:], "<=" if t <= 170 else ">"), abs(Fraction(v) - ex), tol):
             out.append(fail("prop", "%s_Binomial differs from the sum of the mass function" % nm[6:].upper(), "t=%d p=%r x=%d got %r exact %r" % (t, p, x, v, float(ex))))
-        if v < 0 or v > 1 + 1e-12:
+        if v < 0 or v > 1:                                        # exact (fix 1f73a00)
             out.append(fail("prop", "binomial mass/CDF outside [0,1]", repr(v)))
     elif op in ("c07.pois_pmf", "c07.pois_cdf"):
         mu, n = fl(a[0]), int(a[1]); v = fl(ti[0])
@@ -579,12 +614,12 @@ def _check(op, a, ti, mt, ctx):
             ref = -mpmath.log(M(Fraction(c)))
             _val(ctx, out, "Inv_CDF_Poisson(0,cdf)", mu, ref, 4 * EPSF * abs(ref) + 1e-300)
         else:
-            tol = 1e-7 if n + 1 <= 100 else 1e-3
+            tol = 1e-7                                            # every count (audit: worst 2.5e-13)
             if math.isnan(mu) or mu < 0:
                 out.append(fail("prop", "Inv_CDF_Poisson returns no non-negative number", "n=%d cdf=%r got %r" % (n, c, mu)))
                 return out
             refc = d_pois_cdf(M(Fraction(mu)), n)
-            if not ratio(ctx, "CDF_Poisson(Inv_CDF_Poisson)=cdf (counts%s100)" % ("<" if n + 1 <= 100 else ">="), max(abs(back - c), abs(float(refc) - c)), tol + tol_gamma(n + 1)):
+            if not ratio(ctx, "CDF_Poisson(Inv_CDF_Poisson)=cdf (counts%s100)" % ("<" if n + 1 <= 100 else ">="), max(abs(back - c), abs(float(refc) - c) * tol / (tol + tol_gamma(n + 1))), tol):
                 out.append(fail("prop", "Inv_CDF_Poisson does not invert CDF_Poisson to its stated accuracy", "n=%d cdf=%r mu=%r CDF(mu)=%r" % (n, c, mu, back)))
     elif op in ("c07.chi_pdf", "c07.chi_cdf"):
         x, k = fl(a[0]), fl(a[1]); v = fl(ti[0])
@@ -601,7 +636,7 @@ def _check(op, a, ti, mt, ctx):
             if const:
                 _const(ctx, out, "CDF_Chi_Square", v, mt, 0)
             _val(ctx, out, "CDF_Chi_Square (dof%s200)" % ("<=" if k <= 200 else ">"), v, ref, tol_gamma(k / 2) * (1 + 1e-3))
-            if not (0 <= v <= 1 + tol_gamma(k / 2)):
+            if not (0 <= v <= 1):                                 # exact for every dof (fix 317093f)
                 out.append(fail("prop", "CDF_Chi_Square outside [0,1]", repr(v)))
     elif op in ("c07.chibar_pdf", "c07.chibar_cdf"):
         x = fl(a[0]); m = int(a[1]); w = [fl(t) for t in a[2:2 + m]]; v = fl(ti[0])
@@ -629,19 +664,29 @@ def _check(op, a, ti, mt, ctx):
         else:
             _val(ctx, out, name, v, ref, 8 * EPSF)
             t = float(X / Mm) if x >= 0 else 0.0
-            if nm == "mb_cdf" and 1e-5 <= t <= 1e-1:
+            if nm == "mb_cdf" and not PENDING_MB_SMALL and 0 < t < 0.1 and ref > mpf(1e-290):
+                if not ratio(ctx, "CDF_Maxwell_Boltzmann small argument, relative", abs(mpf(v) - ref), 16 * EPSF * ref):
+                    out.append(fail("prop", "CDF_Maxwell_Boltzmann differs from its definition beyond 16 eps relative (small x/a)",
+                                    "x/a=%r got %r, definition %s" % (t, v, mpmath.nstr(ref, 17))))
+            elif nm == "mb_cdf" and 1e-5 <= t <= 1e-1:
                 # rounding noise of erf(t/sqrt2) - sqrt(2/pi) t exp(-t^2/2): a few ulp of the two terms (~0.8 t), relative ~ eps/t^2
                 if not ratio(ctx, "CDF_Maxwell_Boltzmann small argument, at the noise of its formula", abs(mpf(v) - ref), K_MB * EPSF * 0.8 * t):
                     out.append(fail("prop", "CDF_Maxwell_Boltzmann differs from its definition beyond the rounding of its formula (small x/a)",
                                     "x/a=%r got %r, definition %s (relative error %.3g)" % (t, v, mpmath.nstr(ref, 17), float(abs(mpf(v) - ref) / ref))))
-        lowest = -8 * EPSF * float(abs(mpmath.erf(X / (mpmath.sqrt(2) * Mm)))) if nm == "mb_cdf" else 0.0   # two nearly equal terms are subtracted
+        # OPEN DEFECT 7 (PENDING_MB_SMALL): the closed form cancels and goes negative for x/a < 1.5e-8
+        lowest = -8 * EPSF * float(abs(mpmath.erf(X / (mpmath.sqrt(2) * Mm)))) if (nm == "mb_cdf" and PENDING_MB_SMALL) else 0.0
         if v < lowest or (nm.endswith("cdf") and v > 1) or math.isnan(v):
             out.append(fail("prop", name + " negative or above one", repr(v)))
     elif op in ("c07.lik", "c07.loglik"):
         s, n, b = fl(a[0]), int(a[1]), fl(a[2]); v, pmf = fl(ti[0]), fl(ti[1])
         S, B = M(Fraction(s)), M(Fraction(b))
-        ll = d_loglik(S, n, B)
-        sc = abs(n * mpmath.log(S + B)) + 2 * mpmath.loggamma(n + 1) + S + B + n + 8
+        if s + b == 0:
+            if n != 0:
+                return out
+            ll = mpf(0); sc = mpf(8)           # PMF_Poisson(0,0) = 1
+        else:
+            ll = d_loglik(S, n, B)
+            sc = abs(n * mpmath.log(S + B)) + 2 * mpmath.loggamma(n + 1) + S + B + n + 8
         if op == "c07.loglik":
             _val(ctx, out, "Log_Likelihood_Poisson", v, ll, K_EXP * EPSF * sc)
             if pmf > 1e-290 and not ratio(ctx, "Log_Likelihood = log PMF_Poisson(s+b)", abs(v - math.log(pmf)), float(2 * K_EXP * EPSF * sc)):
@@ -656,11 +701,11 @@ def _check(op, a, ti, mt, ctx):
         mn = int(a[1 + m]); nobs = [int(t) for t in a[2 + m:2 + m + mn]]
         mb = int(a[2 + m + mn]); bg = [fl(t) for t in a[3 + m + mn:3 + m + mn + mb]] or [0.0] * m
         v = fl(ti[0]); per = [fl(t) for t in ti[1:1 + m]]
-        if mn == m and len(bg) == m and all(si + bi > 0 for si, bi in zip(s, bg)):
-            # the definition: product over bins of the Poisson mass function at signal plus background
-            lls = [d_loglik(M(Fraction(si)), ni, M(Fraction(bi))) for si, ni, bi in zip(s, nobs, bg)]
+        if mn == m and len(bg) == m and all(si + bi > 0 or ni == 0 for si, ni, bi in zip(s, nobs, bg)):
+            # the definition: product over bins of the Poisson mass function at signal plus background (PMF_Poisson(0,0) = 1)
+            lls = [d_loglik(M(Fraction(si)), ni, M(Fraction(bi))) if si + bi > 0 else mpf(0) for si, ni, bi in zip(s, nobs, bg)]
             tot = mpmath.fsum(lls)
-            scd = sum(abs(ni * mpmath.log(M(Fraction(si)) + M(Fraction(bi)))) + 2 * mpmath.loggamma(ni + 1) + si + bi + ni for si, ni, bi in zip(s, nobs, bg)) + 8 * (m + 1)
+            scd = sum(abs(ni * mpmath.log(M(Fraction(si)) + M(Fraction(bi)))) + 2 * mpmath.loggamma(ni + 1) + si + bi + ni for si, ni, bi in zip(s, nobs, bg) if si + bi > 0) + 8 * (m + 1)
             if op == "c07.loglik_b":
                 _val(ctx, out, "Log_Likelihood_Poisson_Binned", v, tot, K_EXP * EPSF * scd, "is not the sum over bins of log PMF_Poisson(n_i; s_i+b_i)")
             else:
@@ -692,14 +737,15 @@ def _check(op, a, ti, mt, ctx):
             avg = sum(w * v for v, w in d) / wsum
             var = sum(w * (v - avg) ** 2 / wsum for v, w in d)
             bw = math.sqrt(var) * (4.0 / 3.0 / N) ** 0.2
-        if bw < (xmax - xmin) / 149:
+        if (bw < (xmax - xmin) / 149) if PENDING_KDE_NARROW else (not any(v > 0 for v in vals) and not any(math.isnan(v) for v in vals[:1]) and bw < (xmax - xmin) / 149 / 30):
             # stated exclusion: a kernel narrower than the spacing of the 150-point table cannot be represented by the table
+            # (after fixprop-C07-2 only when every tabulated value underflows to zero)
             ctx["excused"] += 1
             bump(ctx, "KDE: bandwidth below the table spacing (excluded)")
             return out
         if any(math.isnan(v) or v < 0 for v in vals):
             out.append(fail("prop", "KDE takes a negative (or NaN) value inside its window", "min %r" % min(vals)))
-        if math.isnan(integ) or not ratio(ctx, "KDE integrates to one (Interpolation::Integrate)", abs(integ - 1), 2.5e-5):
+        if math.isnan(integ) or not ratio(ctx, "KDE integrates to one (Interpolation::Integrate)", abs(integ - 1), 2.5e-5 if PENDING_KDE_NARROW else 1e-12):
             out.append(fail("prop", "KDE does not integrate to one over its window", "integral %r" % integ))
         # tabulated values against the definition, up to the common renormalisation factor
         if bw > 0:
@@ -732,7 +778,7 @@ def finalize(ctx, exe):
         if v1 is None or v2 is None or tag(v1) != "ok" or tag(v2) != "ok":
             continue
         v1, v2 = fl(toks(v1)[0]), fl(toks(v2)[0])
-        noise = K_MB * EPSF * 0.8 * c if op == "mb_cdf" else 4 * EPSF
+        noise = K_MB * EPSF * 0.8 * c if (op == "mb_cdf" and (PENDING_MB_SMALL or c >= 0.1)) else 0.0
         if not ratio(ctx, "CDF non-decreasing across a pair 1e-8 apart (%s)" % op, max(0.0, v1 - v2), noise):
             out.append(dict(fail("prop", "CDF decreases between two close arguments (%s)" % op,
                                  "x/scale=%r: %r -> %r (down by %.3g relative)" % (c, v1, v2, (v1 - v2) / max(v1, 1e-300))), req=r2))
@@ -749,13 +795,15 @@ def finalize(ctx, exe):
         big = (kind == "chi" and pars[0] > 200) or (kind in ("pois", "pois_mu"))
         sgn = -1 if kind == "pois_mu" else 1
         for i in range(len(vals) - 1):
-            slack = 4 * EPSF
-            if kind == "chi":
-                slack = 2e-13 if pars[0] <= 200 else 1e-3
+            slack = 0.0                     # uniform, normal, exponential, binomial: exact (audit: 0 violations in 2-3M neighbour pairs)
+            if kind == "mb":
+                slack = 4 * EPSF
+            elif kind == "chi":
+                slack = 2e-13 if pars[0] <= 200 else 1e-8
             elif kind == "pois":
-                slack = 2e-13 if xs[i + 1] + 1 <= 100 else 1e-3
+                slack = 0.0 if xs[i + 1] + 1 <= 100 else 1e-8
             elif kind == "pois_mu":
-                slack = 2e-13 if pars[0] + 1 <= 100 else 1e-3
+                slack = 2e-13 if pars[0] + 1 <= 100 else 1e-8
             elif kind == "chibar":
                 slack = 2e-13
             if not ratio(ctx, "CDF monotone on a sorted grid (%s)" % kind, max(0.0, sgn * (vals[i] - vals[i + 1])), slack):
